@@ -1093,7 +1093,9 @@ class yanny(OrderedDict):
                 line = line.strip()
                 line = self.trailing_comment(line)
                 # line = trailing_comments.sub('',line)
-                line = double_braces.sub('""', line)
+                line = '"'.join([double_braces.sub('""', part) if k % 2 == 0
+                                 else part
+                                 for k, part in enumerate(line.split('"'))])
                 #
                 # Now if the first word on the line does not match a
                 # structure definition it is a keyword/value pair
